@@ -3,6 +3,7 @@ import glob
 import json
 import os
 import re
+import shutil
 from concurrent.futures import ThreadPoolExecutor
 
 import vlib
@@ -33,14 +34,17 @@ FAMILIES = {
                           "pypi_struct_refl_refuted", "pypi_trans_on_valid", "pypi_eq_equiv", "pypi_trans_all_strings", "pypi_eq_equiv_all_strings"]},
     "packagist": {"files": ["Packagist.v", "PackagistProofs.v"],
                   "theorems": ["packagist_total", "packagist_antisym", "packagist_refl", "packagist_hash_eq_not_transitive_refuted",
-                               "packagist_trans_on_D", "packagist_eq_equiv_on_D"]},
+                               "packagist_trans_on_D", "packagist_eq_equiv_on_D", "packagist_total_all_strings",
+                               "packagist_antisym_all_strings", "packagist_refl_all_strings", "packagist_trans_on_D_strings",
+                               "packagist_eq_equiv_on_D_strings"]},
     "maven": {"files": ["DecProofs.v", "Maven.v", "MavenProofs.v", "MavenParseProofs.v"],
               "theorems": ["maven_total", "maven_struct_total", "maven_refl", "maven_struct_refl", "maven_eq_symmetric",
                            "maven_struct_antisym", "maven_trans_refuted", "maven_trans_on_D", "maven_eq_equiv_on_D",
                            "maven_parse_wf", "maven_antisym", "maven_trans_on_D_strings", "maven_eq_equiv_on_D_strings"]},
-    "alpine": {"files": ["Alpine.v", "AlpineProofs.v"],
+    "alpine": {"files": ["Alpine.v", "AlpineProofs.v", "AlpineParse.v", "AlpineParseProofs.v"],
                "theorems": ["alpine_total", "alpine_antisym", "alpine_refl", "alpine_eq_not_transitive_refuted",
-                            "alpine_trans_on_D", "alpine_eq_equiv_on_D"]},
+                            "alpine_trans_on_D", "alpine_eq_equiv_on_D", "alpine_total_all_strings", "alpine_antisym_all_strings",
+                            "alpine_refl_all_strings", "alpine_trans_on_D_strings", "alpine_eq_equiv_on_D_strings"]},
 }
 ALL_FAMILIES = ["semver", "nuget", "cran", "rubygems", "debian", "redhat", "pypi", "packagist", "alpine", "maven"]
 ALL_ECOS = {"semver": ["npm", "crates.io", "Go", "Hex", "Pub", "ConanCenter"], "nuget": ["NuGet"], "cran": ["CRAN"],
@@ -79,14 +83,14 @@ META = {
                   "tests on published ordering chains. The models are tied to the code on every run: parse model = structure dumped "
                   "by the hook, compare model = observed result on all pairs of a 40-string pool per ecosystem (x shards) and further "
                   "random pairs; the laws are also checked directly on the observed results (every pair both ways, every triple of "
-                  "each pool inside the domain of the proved theorem). Not modelled (structures taken from the hook): the regex "
-                  "front ends of Alpine and Packagist (PyPI's PEP 440 regex + legacy fallback IS modelled, as a backtracking matcher). NOT yet modelled ecosystems: %s."
+                  "each pool inside the domain of the proved theorem). All front ends are modelled on bytes, including the regex-driven ones (PyPI: PEP 440 expression as a "
+                  "backtracking matcher + legacy fallback; Alpine: the five regex steps; Packagist: canonicalisation + split). NOT yet modelled ecosystems: %s."
                   % (", ".join(e for k in implemented() for e in ALL_ECOS[k]), ", ".join(not_modelled()) or "none"),
     "level_note": "Trusted: Coq kernel + vm_compute; Go harness harness/cmd/semantic (string generation, observation of "
                   "value/error/recovered panic, printing of Coq terms); hook semantic/verif_export.go (JSON dump of parsed "
                   "structures). strings.ToLower is modelled for ASCII and, through the generated toolchain table, for U+0080..U+052F (Latin-1, Latin Extended, "
                   "IPA, Greek, Cyrillic; every code point of that range is swept on each run for NuGet, Maven, PyPI); cased letters at or above "
-                  "U+0530 are not modelled (such inputs are kept out of the correspondence and counted per ecosystem in input_distribution), regex front ends of Alpine/Packagist (structures come from the hook), math/big. "
+                  "U+0530 are not modelled (such inputs are kept out of the correspondence and counted per ecosystem in input_distribution), math/big; regexp is modelled by hand-written scanners/matchers (checked by the parse correspondence on every string). "
                   "Debian and Red Hat comparators are modelled as tokenise-then-compare, an equivalent form of the interleaved Go loops "
                   "(equivalence checked by the correspondence). Maven: maven_parse_wf proves that the modelled tokeniser only builds well-formed token lists, so antisymmetry "
                   "and the laws on D hold for all byte strings. Keyword / weight tables of Maven, Alpine, Packagist, Debian and PyPI are "
@@ -301,7 +305,7 @@ def run(ctx):
         "translator harness/cmd/semtables (go/ast patterns over semantic/*.go -> Generated_Tables.v; human-readable data)",
         "Go harness harness/cmd/semantic (generation, observation of value / error / recovered panic, Coq term printing)",
         "hook /repo/semantic/verif_export.go (VerifParse/VerifDump: JSON dump of the parsed structures)",
-        "modelled, not verified: Unicode case mapping of strings.ToLower at or above U+0530 (below: generated toolchain table, swept on every run); math/big; regexp (Alpine/Packagist front ends: structures taken from the hook; PyPI's is modelled)",
+        "modelled, not verified: Unicode case mapping of strings.ToLower at or above U+0530 (below: generated toolchain table, swept on every run); math/big; regexp (front ends are hand-written byte scanners / a backtracking matcher, tied by the parse correspondence)",
     ]
     ctx.coverage["trusted_base"] = vlib.std_trusted_base(pa, tb_extra)
     ctx.coverage["ecosystems_modelled"] = [e for k in implemented() for e in ALL_ECOS[k]]
@@ -312,10 +316,17 @@ def run(ctx):
                        "correspondence": "semantic.Parse/CompareStr vs Semantic models",
                        "theorems_no_longer_tied_to_code": all_thms}, nofail=True)
         return
-    d = os.path.join(vlib.BUILD, "cases", "C07")
+    # private scratch directory: several C07 runs (seed tests, tiers) may be in flight at the same time
+    d = os.path.join(vlib.BUILD, "cases", "C07-%d" % os.getpid())
+    shutil.rmtree(d, ignore_errors=True)
     os.makedirs(d, exist_ok=True)
-    for f in glob.glob(os.path.join(d, "C07_*")):
-        os.remove(f)
+    try:
+        _run_cases(ctx, pa, binp, d, all_thms)
+    finally:
+        shutil.rmtree(d, ignore_errors=True)
+
+
+def _run_cases(ctx, pa, binp, d, all_thms):
     side = os.path.join(d, "cases.jsonl")
     if ctx.tier == "thorough":
         args = ["-pool", "48", "-extra", "400", "-rules", "160", "-shards", "8"]
@@ -465,7 +476,7 @@ def replay(ctx, path):
     if binp is None:
         print(out)
         return 2
-    d = os.path.join(vlib.BUILD, "cases", "C07")
+    d = os.path.join(vlib.BUILD, "cases", "C07-replay-%d" % os.getpid())
     os.makedirs(d, exist_ok=True)
     rc, out = vlib.sh([binp, "-replay", path, "-outdir", d])
     print(out)
@@ -476,4 +487,5 @@ def replay(ctx, path):
         print(out)
     else:
         print("(ecosystem not modelled yet: implementation results only)")
+    shutil.rmtree(d, ignore_errors=True)
     return 0
